@@ -17,7 +17,9 @@ import (
 	"net"
 	"net/rpc"
 	"os"
+	"runtime"
 	"sort"
+	"strings"
 	"sync"
 	"time"
 
@@ -27,17 +29,29 @@ import (
 )
 
 type mv struct {
-	Kind string `json:"k"` // w c a t x X  (x = scripted peer X commits a fresh update and sends its state to replica I; X = X sends its state to I without a new update)
+	// w c a t x X as before (x = scripted peer X0 commits a fresh update and sends its state to replica I;
+	// X = X0 sends its state to I without a new update), plus
+	//   b  begin a broadcast round of replica I and hold every call of that round on the wire
+	//      (gates in front of every peer park the ReceiveValue calls before they are delivered)
+	//   e  end the round of replica I: deliver the held calls, wait until broadcast() has returned
+	//   s  a whole broadcast round of replica I during which the scripted peers in Mask accept the
+	//      call but do not answer (they stay silent until an r move); the round has BoundMs to return
+	//   r  the silent scripted peers answer at last
+	Kind string `json:"k"`
 	I    int    `json:"i"`
-	ID   int    `json:"id,omitempty"` // update id for w / x
+	ID   int    `json:"id,omitempty"`   // update id for w / x
+	Mask int    `json:"mask,omitempty"` // s: bit k = scripted peer Xk does not answer
 }
 
 type request struct {
-	Op    string `json:"op"` // run | quit
-	New   bool   `json:"new,omitempty"`
-	N     int    `json:"n,omitempty"`
-	VT    string `json:"vt,omitempty"` // gcounter | aworset | lww
-	Moves []mv   `json:"moves,omitempty"`
+	Op            string `json:"op"` // run | quit
+	New           bool   `json:"new,omitempty"`
+	N             int    `json:"n,omitempty"`
+	NX            int    `json:"nx,omitempty"` // scripted peers (default 1)
+	VT            string `json:"vt,omitempty"` // gcounter | aworset | lww
+	SendTimeoutMs int    `json:"send_timeout_ms,omitempty"`
+	BoundMs       int    `json:"bound_ms,omitempty"`
+	Moves         []mv   `json:"moves,omitempty"`
 }
 
 type dump struct {
@@ -52,11 +66,17 @@ type dump struct {
 type step struct {
 	Reads      [][]int `json:"reads"`       // ReadValue of every replica
 	Dumps      []dump  `json:"dumps"`       // accessor dump of every replica
-	Stable     [][]int `json:"stable"`      // the snapshot every replica hands to a peer now: reply to X's empty ReceiveValue sent after a t/x move, else computed from the dump
+	Stable     [][]int `json:"stable"`      // the snapshot every replica hands to a peer now: reply to X0's empty ReceiveValue sent after the move, else computed from the dump
 	StableSeen []bool  `json:"stable_seen"` // true: Stable[i] is a real reply
-	XLog       [][]int `json:"xlog"`        // snapshots X's server received during the move (broadcasts)
-	XReply     []int   `json:"xreply"`      // reply to X's ReceiveValue of an x move
+	XLog       [][]int `json:"xlog"`        // snapshots the scripted peers' servers received during the move (broadcasts)
+	XLogK      []int   `json:"xlog_k"`      // which scripted peer received XLog[n]
+	GLog       [][]int `json:"glog"`        // snapshots that arrived at the gates of real replicas during the move
+	XReply     []int   `json:"xreply"`      // reply to X0's ReceiveValue of an x move
 	HasXReply  bool    `json:"has_xreply"`
+	InFlight   bool    `json:"in_flight"` // b: the round is now in flight (false: broadcast() returned without sending)
+	RoundMs    int64   `json:"round_ms"`  // s: how long broadcast() took
+	Wedged     bool    `json:"wedged"`    // s: broadcast() had not returned after BoundMs and its goroutine was parked in a select
+	Evidence   string  `json:"evidence"`  // s: the goroutine's stack head when Wedged
 }
 
 type response struct {
@@ -66,34 +86,141 @@ type response struct {
 	Steps      []step `json:"steps"`
 }
 
-type xReceiver struct{ ex *execution }
+// gate parks calls on the wire.  arm(tag): the next call that arrives is parked under tag until
+// release(tag).  Calls that arrive while the gate is not armed pass at once.
+type gate struct {
+	mu      sync.Mutex
+	armTag  int
+	entered chan int
+	parked  map[int][]chan struct{}
+}
+
+func newGate() *gate { return &gate{entered: make(chan int, 16), parked: map[int][]chan struct{}{}} }
+
+func (g *gate) arm(tag int) {
+	g.mu.Lock()
+	g.armTag = tag
+	g.mu.Unlock()
+}
+
+func (g *gate) disarm() {
+	g.mu.Lock()
+	g.armTag = 0
+	g.mu.Unlock()
+}
+
+func (g *gate) pass() {
+	g.mu.Lock()
+	tag := g.armTag
+	if tag == 0 {
+		g.mu.Unlock()
+		return
+	}
+	g.armTag = 0
+	ch := make(chan struct{})
+	g.parked[tag] = append(g.parked[tag], ch)
+	g.mu.Unlock()
+	g.entered <- tag
+	<-ch
+}
+
+func (g *gate) release(tag int) {
+	g.mu.Lock()
+	for _, ch := range g.parked[tag] {
+		close(ch)
+	}
+	delete(g.parked, tag)
+	g.mu.Unlock()
+}
+
+func (g *gate) releaseAll() {
+	g.mu.Lock()
+	g.armTag = 0
+	for tag, l := range g.parked {
+		for _, ch := range l {
+			close(ch)
+		}
+		delete(g.parked, tag)
+	}
+	g.mu.Unlock()
+}
+
+func (g *gate) drain() {
+	for {
+		select {
+		case <-g.entered:
+		default:
+			return
+		}
+	}
+}
+
+const stallTag = 1000
+
+// xpeer is a scripted peer: a real RPC server speaking the CRDT resource's protocol.
+type xpeer struct {
+	ex    *execution
+	k     int
+	id    tla.Value
+	l     net.Listener
+	g     *gate
+	state resources.CRDTValue
+}
 
 // ReceiveValue is what a peer of the CRDT resource serves (service name CRDTRPCReceiver).
-// X answers like a peer that has been inside a critical section since its last commit: its reply is
-// its own committed state only; it never relays what it received.
-func (r *xReceiver) ReceiveValue(args resources.ReceiveValueArgs, reply *resources.ReceiveValueResp) error {
-	ex := r.ex
+// A scripted peer answers like a peer that has been inside a critical section since its last commit:
+// its reply is its own committed state only; it never relays what it received.
+func (x *xpeer) ReceiveValue(args resources.ReceiveValueArgs, reply *resources.ReceiveValueResp) error {
+	ex := x.ex
 	ex.xmu.Lock()
-	defer ex.xmu.Unlock()
 	if args.Value != nil {
 		ex.xlog = append(ex.xlog, decode(ex.vt, args.Value))
+		ex.xlogK = append(ex.xlogK, x.k)
 	}
-	*reply = resources.ReceiveValueResp{Value: ex.xstate}
+	ex.xmu.Unlock()
+	x.g.pass()
+	ex.xmu.Lock()
+	*reply = resources.ReceiveValueResp{Value: x.state}
+	ex.xmu.Unlock()
 	return nil
 }
 
+// peerGate stands in front of a real replica: peers dial the gate, the gate forwards every call to
+// the replica's own receiver (unchanged ReceiveValue) after letting the harness hold it on the wire.
+type peerGate struct {
+	ex     *execution
+	l      net.Listener
+	g      *gate
+	target *resources.CRDTRPCReceiver
+}
+
+func (p *peerGate) ReceiveValue(args resources.ReceiveValueArgs, reply *resources.ReceiveValueResp) error {
+	ex := p.ex
+	ex.xmu.Lock()
+	if args.Value != nil {
+		ex.glog = append(ex.glog, decode(ex.vt, args.Value))
+	}
+	ex.xmu.Unlock()
+	p.g.pass()
+	return p.target.ReceiveValue(args, reply)
+}
+
 type execution struct {
-	n      int
+	n, nx  int
 	vt     string
 	ids    []tla.Value
-	xid    tla.Value
 	reps   []distsys.ArchetypeResource
-	addrs  map[string]string
-	xl     net.Listener
-	xcl    []*rpc.Client
+	addrs  map[string]string // real listen address of every replica
+	gaddrs map[string]string // address peers dial: the gate of a replica, the server of a scripted peer
+	gates  []*peerGate
+	xs     []*xpeer
+	xcl    []*rpc.Client // X0 -> real listener of replica i (sentinels, x moves)
 	xmu    sync.Mutex
 	xlog   [][]int
-	xstate resources.CRDTValue
+	xlogK  []int
+	glog   [][]int
+	rounds map[int]chan struct{} // replica -> done channel of its broadcast() in flight
+	bound  time.Duration
 }
 
 func initValue(vt string) resources.CRDTValue {
@@ -180,19 +307,31 @@ func freePort() (int, error) {
 	return 0, fmt.Errorf("no free port")
 }
 
-func newExecution(n int, vt string) (*execution, error) {
-	ex := &execution{n: n, vt: vt, addrs: map[string]string{}, xid: tla.MakeNumber(int32(n + 1)), xstate: initValue(vt)}
-	xl, err := net.Listen("tcp", "127.0.0.1:0")
-	if err != nil {
-		return nil, err
+func newExecution(rq request) (*execution, error) {
+	n, nx, vt := rq.N, rq.NX, rq.VT
+	if nx < 1 {
+		nx = 1
 	}
-	ex.xl = xl
-	srv := rpc.NewServer()
-	if err := srv.RegisterName("CRDTRPCReceiver", &xReceiver{ex: ex}); err != nil {
-		return nil, err
+	sendTimeout := 10 * time.Minute // never fires in configurations without silent peers
+	if rq.SendTimeoutMs > 0 {
+		sendTimeout = time.Duration(rq.SendTimeoutMs) * time.Millisecond
 	}
-	go srv.Accept(xl)
-	ex.addrs[ex.xid.String()] = xl.Addr().String()
+	ex := &execution{n: n, nx: nx, vt: vt, addrs: map[string]string{}, gaddrs: map[string]string{}, rounds: map[int]chan struct{}{},
+		bound: time.Duration(rq.BoundMs) * time.Millisecond}
+	for k := 0; k < nx; k++ {
+		l, err := net.Listen("tcp", "127.0.0.1:0")
+		if err != nil {
+			return nil, err
+		}
+		x := &xpeer{ex: ex, k: k, id: tla.MakeNumber(int32(n + 1 + k)), l: l, g: newGate(), state: initValue(vt)}
+		srv := rpc.NewServer()
+		if err := srv.RegisterName("CRDTRPCReceiver", x); err != nil {
+			return nil, err
+		}
+		go srv.Accept(l)
+		ex.xs = append(ex.xs, x)
+		ex.gaddrs[x.id.String()] = l.Addr().String()
+	}
 	for i := 0; i < n; i++ {
 		id := tla.MakeNumber(int32(i + 1))
 		ex.ids = append(ex.ids, id)
@@ -201,6 +340,12 @@ func newExecution(n int, vt string) (*execution, error) {
 			return nil, err
 		}
 		ex.addrs[id.String()] = fmt.Sprintf("127.0.0.1:%d", p)
+		gl, err := net.Listen("tcp", "127.0.0.1:0")
+		if err != nil {
+			return nil, err
+		}
+		ex.gates = append(ex.gates, &peerGate{ex: ex, l: gl, g: newGate()})
+		ex.gaddrs[id.String()] = gl.Addr().String()
 	}
 	for i := 0; i < n; i++ {
 		var peers []tla.Value
@@ -209,14 +354,29 @@ func newExecution(n int, vt string) (*execution, error) {
 				peers = append(peers, ex.ids[j])
 			}
 		}
-		peers = append(peers, ex.xid)
+		for _, x := range ex.xs {
+			peers = append(peers, x.id)
+		}
+		self := ex.ids[i]
 		// NewCRDT log.Fatalf's if the port was taken in the meantime: the parent then sees the worker die and retries.
-		res := resources.NewCRDT(ex.ids[i], peers, func(id tla.Value) string { return ex.addrs[id.String()] }, protoValue(vt),
+		res := resources.NewCRDT(self, peers, func(id tla.Value) string {
+			if id.Equal(self) {
+				return ex.addrs[id.String()] // where the instance listens
+			}
+			return ex.gaddrs[id.String()] // where its peers are reached
+		}, protoValue(vt),
 			resources.WithCRDTBroadcastInterval(24*time.Hour), // ticker effectively disabled: ticks are moves
-			resources.WithCRDTSendTimeout(10*time.Second), resources.WithCRDTDialTimeout(10*time.Second))
+			resources.WithCRDTSendTimeout(sendTimeout), resources.WithCRDTDialTimeout(10*time.Second))
 		ex.reps = append(ex.reps, res)
 	}
 	for i := 0; i < n; i++ {
+		pg := ex.gates[i]
+		pg.target = resources.VerifCRDTReceiver(ex.reps[i])
+		srv := rpc.NewServer()
+		if err := srv.RegisterName("CRDTRPCReceiver", pg); err != nil {
+			return nil, err
+		}
+		go srv.Accept(pg.l)
 		conn, err := net.DialTimeout("tcp", ex.addrs[ex.ids[i].String()], 10*time.Second)
 		if err != nil {
 			return nil, err
@@ -227,13 +387,20 @@ func newExecution(n int, vt string) (*execution, error) {
 }
 
 func (ex *execution) shutdown() {
+	for _, x := range ex.xs {
+		x.g.releaseAll()
+		x.l.Close()
+	}
+	for _, g := range ex.gates {
+		g.g.releaseAll()
+		g.l.Close()
+	}
 	for _, c := range ex.xcl {
 		c.Close()
 	}
 	for _, r := range ex.reps {
 		resources.VerifCRDTShutdown(r)
 	}
-	ex.xl.Close()
 }
 
 var errEnvTimeout = fmt.Errorf("env timeout")
@@ -252,11 +419,11 @@ func (ex *execution) xcall(i int, v resources.CRDTValue) (resources.CRDTValue, e
 	}
 }
 
-// settle: X sends its empty (bottom) state to every replica in targets.  mergeValues is a FIFO
+// settle: X0 sends its empty (bottom) state to every replica in targets.  mergeValues is a FIFO
 // consumed by one goroutine, and the move's own RPCs have completed before this one is sent, so once
 // the queue is empty again every state received during the move has been merged (the bottom value
 // itself merges as the identity).  The replies are the snapshots a peer receives from each replica
-// right now.  Moves that cannot enqueue anything (w, c, a) need no settling.
+// right now.  Moves that cannot enqueue anything (w, c, a, b) need no settling.
 func (ex *execution) settle(targets []int) (map[int][]int, error) {
 	stable := map[int][]int{}
 	for _, i := range targets {
@@ -310,12 +477,55 @@ func (ex *execution) observe(resp *step, targets []int) error {
 	return nil
 }
 
+// peerGatesOf returns the gates a broadcast round of replica i passes through.
+func (ex *execution) peerGatesOf(i int) []*gate {
+	var gs []*gate
+	for j := 0; j < ex.n; j++ {
+		if j != i {
+			gs = append(gs, ex.gates[j].g)
+		}
+	}
+	for _, x := range ex.xs {
+		gs = append(gs, x.g)
+	}
+	return gs
+}
+
+// broadcastGoroutine describes the goroutine running (*crdt).broadcast, if any: its wait state as the
+// runtime prints it and the head of its stack.
+func broadcastGoroutine() (state string, head string) {
+	buf := make([]byte, 4<<20)
+	buf = buf[:runtime.Stack(buf, true)]
+	for _, blk := range strings.Split(string(buf), "\n\n") {
+		if !strings.Contains(blk, "resources.(*crdt).broadcast(") {
+			continue
+		}
+		lines := strings.Split(blk, "\n")
+		if a, b := strings.Index(lines[0], "["), strings.Index(lines[0], "]"); a >= 0 && b > a {
+			state = lines[0][a+1 : b]
+		}
+		if len(lines) > 7 {
+			lines = lines[:7]
+		}
+		return state, strings.Join(lines, " | ")
+	}
+	return "", ""
+}
+
+func (ex *execution) allReplicas() []int {
+	t := make([]int, ex.n)
+	for i := range t {
+		t[i] = i
+	}
+	return t
+}
+
 func (ex *execution) move(rq mv, resp *step) error {
 	ex.xmu.Lock()
-	ex.xlog = nil
+	ex.xlog, ex.xlogK, ex.glog = nil, nil, nil
 	ex.xmu.Unlock()
 	iface := distsys.ArchetypeInterface{}
-	nbcBefore := 0
+	var targets []int
 	switch rq.Kind {
 	case "w":
 		if err := ex.reps[rq.I].WriteValue(iface, opValue(ex.vt, rq.ID)); err != nil {
@@ -335,7 +545,10 @@ func (ex *execution) move(rq mv, resp *step) error {
 			<-ch
 		}
 	case "t":
-		nbcBefore = resources.VerifCRDTDumpOf(ex.reps[rq.I]).NeedBroadcastCount
+		if ex.rounds[rq.I] != nil {
+			return fmt.Errorf("tick of replica %d while its round is in flight", rq.I)
+		}
+		nbcBefore := resources.VerifCRDTDumpOf(ex.reps[rq.I]).NeedBroadcastCount
 		done := make(chan struct{})
 		go func() { resources.VerifCRDTBroadcastOnce(ex.reps[rq.I]); close(done) }()
 		select {
@@ -343,12 +556,123 @@ func (ex *execution) move(rq mv, resp *step) error {
 		case <-time.After(40 * time.Second):
 			return errEnvTimeout
 		}
+		// a tick that sent nothing (the scripted peers are connected to everyone and received nothing, and
+		// the broadcast credit was already 0) cannot have enqueued anything anywhere
+		ex.xmu.Lock()
+		silent := len(ex.xlog) == 0 && nbcBefore == 0
+		ex.xmu.Unlock()
+		if !silent {
+			targets = ex.allReplicas()
+		}
+	case "b":
+		if ex.rounds[rq.I] != nil {
+			return fmt.Errorf("round of replica %d already in flight", rq.I)
+		}
+		gs := ex.peerGatesOf(rq.I)
+		for _, g := range gs {
+			g.drain()
+			g.arm(rq.I + 1)
+		}
+		done := make(chan struct{})
+		go func() { resources.VerifCRDTBroadcastOnce(ex.reps[rq.I]); close(done) }()
+		inflight := true
+		timeout := time.After(30 * time.Second)
+	wait:
+		for _, g := range gs {
+			select {
+			case <-g.entered:
+			case <-done:
+				inflight = false
+				break wait
+			case <-timeout:
+				for _, g := range gs {
+					g.disarm()
+					g.release(rq.I + 1)
+				}
+				return errEnvTimeout
+			}
+		}
+		if inflight {
+			ex.rounds[rq.I] = done
+			resp.InFlight = true
+		} else {
+			// broadcast() returned without reaching every peer (nothing to send): nothing is held
+			for _, g := range gs {
+				g.disarm()
+				g.release(rq.I + 1)
+			}
+			targets = ex.allReplicas()
+		}
+	case "e":
+		if done := ex.rounds[rq.I]; done != nil {
+			for _, g := range ex.peerGatesOf(rq.I) {
+				g.release(rq.I + 1)
+			}
+			select {
+			case <-done:
+			case <-time.After(40 * time.Second):
+				return errEnvTimeout
+			}
+			delete(ex.rounds, rq.I)
+			targets = ex.allReplicas()
+		}
+	case "s":
+		for k, x := range ex.xs {
+			if rq.Mask&(1<<uint(k)) != 0 {
+				x.g.drain()
+				x.g.arm(stallTag)
+			}
+		}
+		done := make(chan struct{})
+		t0 := time.Now()
+		go func() { resources.VerifCRDTBroadcastOnce(ex.reps[rq.I]); close(done) }()
+		select {
+		case <-done:
+		case <-time.After(ex.bound):
+			// not back after the bound: is the goroutine parked for good, or merely starved?
+			st1, head := broadcastGoroutine()
+			select {
+			case <-done:
+			case <-time.After(ex.bound / 4):
+			}
+			st2, _ := broadcastGoroutine()
+			select {
+			case <-done: // it did come back: slow environment, not a verdict
+			default:
+				if strings.HasPrefix(st1, "select") && strings.HasPrefix(st2, "select") {
+					resp.Wedged = true
+					resp.Evidence = head
+				}
+			}
+			// let the silent peers answer so that the goroutine can finish, whatever the verdict
+			for _, x := range ex.xs {
+				x.g.releaseAll()
+			}
+			select {
+			case <-done:
+			case <-time.After(30 * time.Second):
+				return errEnvTimeout
+			}
+			if !resp.Wedged {
+				return errEnvTimeout
+			}
+		}
+		resp.RoundMs = time.Since(t0).Milliseconds()
+		for _, x := range ex.xs {
+			x.g.disarm() // a peer that was not called in this round does not stay armed
+		}
+		targets = ex.allReplicas()
+	case "r":
+		for _, x := range ex.xs {
+			x.g.releaseAll()
+		}
+		targets = ex.allReplicas()
 	case "x", "X":
 		ex.xmu.Lock()
 		if rq.Kind == "x" {
-			ex.xstate = ex.xstate.Write(ex.xid, opValue(ex.vt, rq.ID))
+			ex.xs[0].state = ex.xs[0].state.Write(ex.xs[0].id, opValue(ex.vt, rq.ID))
 		}
-		st := ex.xstate
+		st := ex.xs[0].state
 		ex.xmu.Unlock()
 		v, err := ex.xcall(rq.I, st)
 		if err != nil {
@@ -356,30 +680,15 @@ func (ex *execution) move(rq mv, resp *step) error {
 		}
 		resp.XReply = decode(ex.vt, v)
 		resp.HasXReply = true
+		targets = []int{rq.I}
 	default:
 		return fmt.Errorf("unknown move %q", rq.Kind)
-	}
-	var targets []int
-	switch rq.Kind {
-	case "t":
-		// a tick that sent nothing (X is connected to everyone and received nothing, and the broadcast
-		// credit was already 0) cannot have enqueued anything anywhere
-		ex.xmu.Lock()
-		silent := len(ex.xlog) == 0 && nbcBefore == 0
-		ex.xmu.Unlock()
-		if !silent {
-			for i := 0; i < ex.n; i++ {
-				targets = append(targets, i)
-			}
-		}
-	case "x", "X":
-		targets = []int{rq.I}
 	}
 	if err := ex.observe(resp, targets); err != nil {
 		return err
 	}
 	ex.xmu.Lock()
-	resp.XLog = ex.xlog
+	resp.XLog, resp.XLogK, resp.GLog = ex.xlog, ex.xlogK, ex.glog
 	ex.xmu.Unlock()
 	return nil
 }
@@ -410,7 +719,7 @@ func childMain() {
 			if ex != nil {
 				ex.shutdown()
 			}
-			ex, err = newExecution(rq.N, rq.VT)
+			ex, err = newExecution(rq)
 		}
 		if err == nil && ex == nil {
 			err = fmt.Errorf("no execution")
@@ -422,6 +731,9 @@ func childMain() {
 					break
 				}
 				resp.Steps = append(resp.Steps, st)
+				if st.Wedged {
+					break // verdict reached; the remaining moves of the script would only repeat it
+				}
 			}
 		}
 		if err != nil {
